@@ -4,7 +4,10 @@ package main
 // that the C20 model and proofs depend on — the string literals written between
 // the parts of the verification string, the identity format string and its
 // argument order, the identity sort keys, the name of the form-type field and
-// the capacity expressions of every make() (a negative capacity panics).
+// the capacity expressions of every make() (a negative capacity panics), and
+// the tail of the function (what happens to the destination, the sum and the
+// output buffer after the last loop) as a program of a small slice language
+// (sec_discocaps_tail.go).
 //
 // This section never reports a translator error (that would stop every
 // property's check): what it cannot read becomes a sentinel value that breaks
@@ -241,6 +244,7 @@ func (g *gen) discoCaps() {
 	}
 	g.p("]%%N.\n")
 	g.p("Definition caps_other_caps_nonneg : bool := %v.\n", otherOK)
+	g.discoCapsTail(f, fd)
 }
 
 // identityLess reads the comparison function of sort.Slice(i.Identity, ...):
